@@ -69,8 +69,17 @@ class MolecularContainer:
         for name in self.conformation_names:
             for atom in self.conformations[name].atoms:
                 ref_atoms.setdefault((atom.residue_label, atom.res_name), atom)
+        # Donor atoms are appended behind the own atoms of a conformation, so
+        # a completed conformation lists its atoms (and later its groups) in
+        # another order than the input.  Ligand typing, hydrogen placement and
+        # the pair loops depend on that order: restore the order of the
+        # reference table (= order of first appearance in the input).
+        position = {key: i for i, key in enumerate(ref_atoms)}
         for conf in self.conformations.values():
             conf.top_up_from_atoms(ref_atoms.values())
+            if len(self.conformations) > 1:
+                conf.atoms.sort(key=lambda atom: position[
+                    (atom.residue_label, atom.res_name)])
 
     def find_covalently_coupled_groups(self) -> None:
         """Find covalently coupled groups."""
